@@ -811,7 +811,8 @@ def c08_oracle(case, r):
             owner[a[4]] = cur.get(th, owner.get(th))
         elif op == "interrupt":
             triggers.append((i, "interrupt", None, "the keyboard interrupt"))
-        elif op == "raise" and a[3] in ("AbortSuite", "AbortAllTests"):
+        elif op == "raise" and a[3] in ("AbortSuite", "AbortAllTests") and "#" not in a[2]:
+            # (an exception raised inside a lcc.Thread never reaches the runner: Thread.run turns it into an error log)
             task = cur.get(th, owner.get(th))
             if task and task[0] == "TestTask":
                 triggers.append((("finish", task), a[3], task[1].rsplit(".", 1)[0], "%s raised by %s" % (a[3], a[2])))
